@@ -131,6 +131,9 @@ func RunCase(k *fw.Case, cfg *Config) {
 			}
 		})
 		k.Count("op_"+op.Kind, 1)
+		if op.Again {
+			k.Count("earlier_text_pushed_again", 1)
+		}
 		k.Eval(1)
 		sig = append(sig, op.Kind+"["+strings.Join(op.Rel, ",")+"]"+fmt.Sprint(len(model)))
 		if op.Kind == KInc {
